@@ -56,6 +56,8 @@ def gen_case(prop: str, seed: int, tier: str, index: int, classes: List[str]) ->
     tables = fast_tables(rng)
     loop_cfg: Dict[str, Any] = {"cost_small_p": 0.1, "cost_small_max": 0.003}
     if rng.random() < 0.3:
+        loop_cfg.update(wall_jump_p=0.002, wall_jump_max=rng.choice([5.0, 3600.0, 86400.0]))      # the wall clock steps; monotonic time does not
+    if rng.random() < 0.3:
         loop_cfg.update(cost_stall_p=0.001, cost_stall_min=0.05, cost_stall_max=rng.choice([0.3, 1.0]))
     plan: List[Dict[str, Any]] = []
     t = rng.uniform(0.0, 8.0) if cls != "steady" else rng.uniform(6.0, 12.0)
